@@ -91,6 +91,13 @@ func fidelityCorpus(fe *fidEngine) {
 	e.Corpus("set-over-multiple-values-request-form", func(c *ev.Case) {
 		fe.runConfig(c, &config{Method: "POST", Tmpl: tmpl("/seq"), Body: bForm, Form: []multi{seq3("k")}}, 2)
 	})
+	// quote and backslash in file and field names are escaped in the part header and arrive
+	e.Corpus("file-names-needing-escaping", func(c *ev.Case) {
+		cf := &config{Method: "POST", Tmpl: tmpl("/f"), Body: bFiles, Form: []multi{m1("t", 0, "1")},
+			Files: []fileSpec{{Name: `q"uote.txt`, Content: "a", Via: 0}, {Name: `back\slash.bin`, Field: `fi"eld`, Content: "b", Via: 2},
+				{Name: "semi;colon=eq ü.dat", Field: `f\x`, Content: "c", Via: 2}}}
+		fe.runConfig(c, cf, 2)
+	})
 	// a file given by explicit name AND path is uploaded under the explicit name
 	e.Corpus("file-explicit-name-with-path", func(c *ev.Case) {
 		cf := &config{Method: "POST", Tmpl: tmpl("/f"), Body: bFiles,
